@@ -228,3 +228,33 @@ def while_free_swap_store(l):
     if len(l) >= 2:
         l[0], l[-1] = l[-1], l[0]
     return l
+
+
+def str_prefix(s, p):
+    if s.startswith(p + "/"):
+        return p + "!" + s[len(p):]
+    return s
+
+
+def str_replace_once(s, a, b):
+    return s.replace(a, b, 1)
+
+
+def str_eq_chain(s, t):
+    if s == t:
+        return 0
+    if s.startswith(t):
+        return 1
+    if t.startswith(s):
+        return 2
+    return 3
+
+
+def str_len_slice(s):
+    if len(s) > 2:
+        return s[1:]
+    return s + s
+
+
+def str_guard(s, t):
+    return (s and s.startswith(t)) or (not s and not t)
